@@ -1937,6 +1937,28 @@ package badger
 //@   assert[directory-synced-after-builders] before call syncDir : called(Finish#1) && ret(Finish#1) == nil && arg1 == s.kv.opt.Dir
 //@   assert[tables-only-after-sync] before return : result2 == nil ==> called(syncDir#1) && ret(syncDir#1) == nil
 
+// The merged input of a compaction: the top tables first (level 0 newest first; one table
+// otherwise), then the bottom tables that are not dropped as a whole, concatenated in order;
+// every key range split gets its own forward merge of these.
+//@ func (*levelsController).compactBuildTables.newIterator
+//@   props C12 C21
+//@   light
+//@   assert[level0-top-newest-first] before call appendIteratorsReversed : lev == 0 && arg1 == topTables && len(arg0) == 0
+//@   assert[single-top-table-otherwise] before call NewIterator : lev != 0 && arg0 == topTables[0]
+//@   assert[bottom-tables-after-top] before call NewConcatIterator : arg0 == valid
+//@   assert[bottom-last] before call append : len(arg1) == 1
+
+// Rotating the memtable: the full memtable is handed to the flusher and appended to the list of
+// immutable memtables (newest last) before a fresh one replaces it, all under the DB lock; when
+// the flusher's queue is full nothing changes and the writer retries.
+//@ func (*DB).ensureRoomForWrite
+//@   props C12 C08
+//@   light
+//@   assert[room-means-nothing-to-do] before return#1 : result == nil && !ret(isFull#1)
+//@   assert[old-memtable-kept-until-flushed] before call newMemTable : held(db.lock) && len(db.imm) >= 1 && db.imm[len(db.imm)-1] == db.mt
+//@   assert[fresh-memtable-installed] before return#3 : result == nil && db.mt == ret0(newMemTable#1)
+//@   assert[queue-full-means-retry] before return#4 : result == errNoRoom
+
 // buildChangeSet: a compaction's change set creates every new table on the next level with its
 // own id, key id and compression and deletes every input table (in-memory top tables excepted).
 //@ func buildChangeSet
